@@ -65,9 +65,63 @@ func findMethod(f *ast.File, recv, name string) *ast.FuncDecl {
 	return nil
 }
 
-// constInt evaluates an integer constant expression made of literals, + - * / << and parens.
+// constEnv: named integer constants visible to constInt (package-level consts of the file's
+// package, filled by loadPkgConsts) and the current value of iota.
+var constEnv = map[string]int64{}
+
+// loadPkgConsts evaluates the package-level integer constants of every non-test .go file in
+// dir (relative to the repo), with iota and implicit repetition, and adds them to constEnv,
+// so that a refactoring that names a literal does not change the extracted tables.
+func loadPkgConsts(dir string) {
+	matches, _ := filepath.Glob(filepath.Join(*repo, dir, "*.go"))
+	for pass := 0; pass < 3; pass++ { // consts may refer to later ones
+		for _, m := range matches {
+			if strings.HasSuffix(m, "_test.go") {
+				continue
+			}
+			f, err := parser.ParseFile(fset, m, nil, 0)
+			if err != nil {
+				continue
+			}
+			for _, d := range f.Decls {
+				gd, ok := d.(*ast.GenDecl)
+				if !ok || gd.Tok != token.CONST {
+					continue
+				}
+				var last []ast.Expr
+				for i, sp := range gd.Specs {
+					vs := sp.(*ast.ValueSpec)
+					vals := vs.Values
+					if len(vals) == 0 {
+						vals = last
+					} else {
+						last = vals
+					}
+					constEnv["iota"] = int64(i)
+					for j, n := range vs.Names {
+						if j < len(vals) {
+							if v, ok := constInt(vals[j]); ok {
+								constEnv[n.Name] = v
+							}
+						}
+					}
+				}
+				delete(constEnv, "iota")
+			}
+		}
+	}
+}
+
+// constInt evaluates an integer constant expression made of literals, named package
+// constants, + - * / << and parens.
 func constInt(e ast.Expr) (int64, bool) {
 	switch e := e.(type) {
+	case *ast.Ident:
+		v, ok := constEnv[e.Name]
+		return v, ok
+	case *ast.SelectorExpr: // config.ChunkSize and the like
+		v, ok := constEnv[e.Sel.Name]
+		return v, ok
 	case *ast.BasicLit:
 		if e.Kind != token.INT {
 			return 0, false
